@@ -387,6 +387,22 @@ func (x *Engine) applyContract(fr *Frame, st *State, fs *FuncSpec, sig *types.Si
 		x.havocAll(st)
 		x.bumpEpoch(st)
 	} else {
+		if fs.ModHeap {
+			ghosts := map[string]string{}
+			for name, g := range x.db.Ghosts {
+				x.regComp("ghost:"+name, g.Sort)
+			}
+			for k := range x.compSort {
+				if strings.HasPrefix(k, "ghost:") {
+					ghosts[k] = x.get(st, k)
+				}
+			}
+			x.havocAll(st)
+			for k, v := range ghosts {
+				st.h[k] = v
+			}
+			x.bumpEpoch(st)
+		}
 		for _, m := range fs.Modifies {
 			x.havocLoc(st, pre, m, env, pkg)
 		}
@@ -404,6 +420,12 @@ func (x *Engine) applyContract(fr *Frame, st *State, fs *FuncSpec, sig *types.Si
 	}
 	if len(res) == 1 {
 		env["result"] = res[0]
+	}
+	for _, c := range fs.Ensures {
+		if c.Kind == "always" {
+			ev := &Eval{x: x, st: st, old: pre, env: env, pkg: pkg}
+			x.assume(st, x.safeEvalBool(ev, c))
+		}
 	}
 	if fs.Panics == "may" {
 		pc := x.freshVal("maypanic", types.Typ[types.Bool], nil)
